@@ -1,10 +1,11 @@
 /* h_gssvx.c — E2 harness: expert driver ?gssvx over a history of calls on one sparsity pattern.
  * Serves C05 (op(A)X=B, documented mutation of A and B), C06 (refactor / re-solve histories), parts of C12/C13, C08 (size query), C19.
- * args: n pattern storage colperm permidx panel relax maxsuper rowblk colblk fill umode symcols nrhs ldbx hist trans equil refine cond growth lworkmode ldxx
+ * args: n pattern storage colperm permidx panel relax maxsuper rowblk colblk fill umode symcols nrhs ldbx hist trans equil refine cond growth lworkmode ldxx scalemode
  *   hist  : decimal digits, one per step (first step must be 1): 1 DOFACT 2 SamePattern 3 SamePattern_SameRowPerm 4 FACTORED
  *   trans : decimal digits per step: 1 NOTRANS 2 TRANS 3 CONJ (missing digits -> last given)
  *   equil : 0 NO 1 YES;  refine: 0 NOREFINE 1 SLU_SINGLE 2 SLU_DOUBLE;  cond/growth: 0/1
- *   lworkmode: 0 library allocation; -1 size query (first step only) */
+ *   lworkmode: 0 library allocation; -1 size query (first step only)
+ *   scalemode: 0 generic concrete values; bit0 rows / bit1 columns of the concrete part badly scaled (forces equed R / C / B when Equil = YES) */
 #include "hcommon.h"
 #define MAXSTEP 4
 
@@ -22,11 +23,12 @@ int main(int argc, char **argv) {
   int nrhs = (int)h_arg(argc, argv, 13, 1), ldb = n + (int)h_arg(argc, argv, 14, 0), ldx = n + (int)h_arg(argc, argv, 22, h_arg(argc, argv, 14, 0));
   long hist = h_arg(argc, argv, 15, 1), transv = h_arg(argc, argv, 16, 1);
   int equil = (int)h_arg(argc, argv, 17, 0), refine = (int)h_arg(argc, argv, 18, 0), cond = (int)h_arg(argc, argv, 19, 0), growth = (int)h_arg(argc, argv, 20, 0), lworkmode = (int)h_arg(argc, argv, 21, 0);
+  h_scalemode = (int)h_arg(argc, argv, 23, 0);
   int nsteps = ndigits(hist); if (nsteps > MAXSTEP) nsteps = MAXSTEP;
   if (equil) slusym_input_gap(1);
 
   symmat_t S; symmat_build_cols(&S, n, n, pat, "a0_", symcols);
-  real_t u = 1; if (umode == 1) { u = SYMREAL("u"); slusym_assume_cmp(2, (double)u, 0.0); slusym_assume_cmp(5, (double)u, 1.0); } else if (umode == 2) u = 0.5;
+  real_t u = 1; if (umode == 1) { u = SYMREAL("u"); slusym_assume_cmp(3, (double)u, 0.0); slusym_assume_cmp(5, (double)u, 1.0); } else if (umode == 2) u = 0.5; else if (umode == 3) u = 0;   /* documented range of DiagPivotThresh is [0,1] */
   int nb = (ldb > ldx ? ldb : ldx) * (nrhs > 0 ? nrhs : 1) + 1;
   elem_t *b = (elem_t *)malloc(sizeof(elem_t) * nb), *b0 = (elem_t *)malloc(sizeof(elem_t) * nb), *x = (elem_t *)malloc(sizeof(elem_t) * nb), *x0 = (elem_t *)malloc(sizeof(elem_t) * nb);
   real_t R[NMAX], C[NMAX], ferr[4], berr[4], rpg = -1, rcond = -1; char equed = 'N';
